@@ -210,8 +210,19 @@ pub fn gen_request(rng: &mut Rng, cfg: &GenCfg, tag: &str) -> GenReq {
         // a header block of dozens to hundreds of lines (several receive windows long)
         nh = rng.range(40, 300);
     }
-    for _ in 0..nh {
-        headers.push(gen_header_line(rng, cfg));
+    // in long blocks (and now and then in a block of 33..70 lines) every line is a custom header with
+    // a name of its own: dozens to hundreds of *distinct* entries in the custom-header map
+    let mut distinct_names = nh >= 40 && rng.chance(1, 2);
+    if cfg.allow_big && rng.chance(1, 400) {
+        nh = rng.range(33, 70);
+        distinct_names = true;
+    }
+    for i in 0..nh {
+        if distinct_names {
+            headers.push(format!("x{}-{}: {}", i, ["a", "Key", "hdr", "Z"][i % 4], i * 7).into_bytes());
+        } else {
+            headers.push(gen_header_line(rng, cfg));
+        }
     }
     let mut wants_expect = false;
     if n > 0 && rng.chance(cfg.expect_bias, 1000) {
